@@ -203,7 +203,8 @@ def run_history(seed):
         armed['a'] = dict(text=text, reaction=reaction, used=False)
         lbp.order = list(order)
         mark = len(env.net.wire_log)
-        rec.execute_async(session, uid, statement=bound, timeout=TIMEOUT)
+        with env.world.inspect():       # callbacks are registered before any answer can be processed (no late-registration artefacts)
+            rec.execute_async(session, uid, statement=bound, timeout=TIMEOUT)
         env.world.settle(advance=False)
         with env.world.inspect():
             outs_before_time = len(rec.outcomes(uid))
@@ -339,7 +340,7 @@ def run(ctx):
                "a connection lost during the re-PREPARE moves the request to the next host of the plan")
     ctx.assume("PreparedStatement.keyspace on v3/v4 is set by the harness (session.prepare cannot produce it on these versions)")
     n = ctx.scale(1500, 60000)
-    budget = 45 if ctx.quick else 400
+    budget = 40 if ctx.quick else 400
     base = ctx.seed * 1000003 + (ctx.worker or 0) * 100003
     for i in range(n):
         if ctx.time_left(budget) < 0:
